@@ -132,13 +132,21 @@ E_RULE = ("cases are stratified programs (2-5 predicates p0..p4 of arity 0-2, 1-
           "lists with optional tail variable and f/1 terms. The query is asked with next_solution() until it reports no more answers (at most 40 "
           "requests) and then re-asked 1-3 more times. Compared per request: the returned substitution set (with variable ids), the resolved query, "
           "the variable counter and the text written to stdout. Non-trivial = at least two clauses or at least one answer; distinct = distinct "
-          "encoded program text. Programs in which an occurs-check situation arises stop at that point in both runs.")
+          "encoded program text. Programs in which an occurs-check situation arises stop at that point in both runs. "
+          "Every run also enumerates ALL 6210 programs `t($X) :- BODY. t(other). g(1). g(2). h(2). h(3). c($X) :- g($X), !. c(3).` whose BODY is a "
+          "conjunction/disjunction of 1-3 goals (flat, `(a;b),c`, `a,(b;c)`, `(a,b);c`, `a;(b,c)`, `(a,b),c`) over the 10-goal alphabet "
+          "{g($X), h($X), !, fail, $X = 2, print, not(h($X)), g($Y), $X < 2, c($X)}.")
 
 
-def engine_runs(prop, n, flagsets, what=None):
+def engine_runs(prop, n, flagsets, what=None, exhaustive=1):
     runs = []
     for fl in flagsets:
         r = {'suite': 'engine', 'args': ['--props', prop, '--n', str(n)] + fl}
+        if what:
+            r['spec_oracle'] = {'prop': prop, 'what': what}
+        runs.append(r)
+    for i in range(exhaustive):
+        r = {'suite': 'engine', 'args': ['--props', prop, '--exhaustive', '--shard', '%d/%d' % (i, exhaustive)]}
         if what:
             r['spec_oracle'] = {'prop': prop, 'what': what}
         runs.append(r)
@@ -151,6 +159,7 @@ ENGINE_ASSUME = ("the property oracle compares the implementation's answers / ou
                  "unbound variable) ends the comparison at that point")
 
 PROPS['C01'] = {
+    'exhaustive_in': {'quick': True, 'thorough': True},
     'module': 'SuironVerif.Props.C01',
     'theorems': ['Suiron.C01.sigma_const_partial', 'Suiron.C01.format_var_partial', 'Suiron.C01.format_skip_nonvar_partial', 'Suiron.C01.machine_answer_partial'],
     'oracles': ['C01'],
@@ -164,6 +173,7 @@ PROPS['C01'] = {
                     ENGINE_ASSUME],
 }
 PROPS['C02'] = {
+    'exhaustive_in': {'quick': True, 'thorough': True},
     'module': 'SuironVerif.Props.C02',
     'theorems': ['Suiron.C02.cut_executes', 'Suiron.C02.marked_node_blocks', 'Suiron.C02.no_later_clause', 'Suiron.C02.cut_then_fail_ends_call',
                  'Suiron.C02.cut_is_local', 'Suiron.C02.cut_marks', 'Suiron.C02.cut_yields_at_most_this_answer'],
@@ -179,6 +189,7 @@ PROPS['C02'] = {
                     ENGINE_ASSUME],
 }
 PROPS['C03'] = {
+    'exhaustive_in': {'quick': True, 'thorough': True},
     'module': 'SuironVerif.Props.C03',
     'theorems': ['Suiron.C03.not_once', 'Suiron.C03.not_hides_bindings', 'Suiron.C03.not_iff', 'Suiron.C03.not_then_exhausted'],
     'oracles': ['C03'],
@@ -192,6 +203,7 @@ PROPS['C03'] = {
                     "decided by the machine comparison", ENGINE_ASSUME],
 }
 PROPS['C04'] = {
+    'exhaustive_in': {'quick': True, 'thorough': True},
     'module': 'SuironVerif.Props.C04',
     'theorems': ['Suiron.C04.bip_effect_once', 'Suiron.C04.bip_output_appended', 'Suiron.C04.interleave_eq', 'Suiron.C04.interleave_no_markers',
                  'Suiron.C04.print_shows_bound_value'],
@@ -206,6 +218,7 @@ PROPS['C04'] = {
                     "`time(...)` is never generated (its text is a duration)", ENGINE_ASSUME],
 }
 PROPS['C05'] = {
+    'exhaustive_in': {'quick': True, 'thorough': True},
     'module': 'SuironVerif.Props.C05',
     'theorems': ['Suiron.C05.none_exhausts', 'Suiron.C05.exhausted_stays', 'Suiron.C05.reasked', 'Suiron.C05.C05'],
     'oracles': ['C05'],
